@@ -62,13 +62,21 @@ FieldPts(pd) == << <<RZero, RZero>>, <<pd.a, pd.b>>, <<RMul(R(1,2), pd.a), RMul(
 Forces1(pd) == << <<RMul(R(1,2), pd.a), RMul(R(1,2), pd.b), R(1,1), R(-2,1), R(3,1)>>,
                   <<pd.a, RMul(R(1,4), pd.b), R(5,2), RZero, R(-1,1)>> >>
 Forces2(pd) == << <<RMul(R(1,4), pd.a), pd.b, RZero, R(1,2), R(7,1)>> >>
+(* the same load point visited again after another one (e.g. fx and fz added separately, a constant and an
+   incrementable force at one point) *)
+Forces3(pd) == << <<RMul(R(1,2), pd.a), RMul(R(1,2), pd.b), R(1,1), RZero, RZero>>,
+                  <<pd.a, RMul(R(1,4), pd.b), R(5,2), RZero, R(-1,1)>>,
+                  <<RMul(R(1,2), pd.a), RMul(R(1,2), pd.b), RZero, R(-2,1), R(3,1)>> >>
+Forces4(pd) == << <<pd.a, RMul(R(1,4), pd.b), RZero, R(1,2), R(7,1)>>,
+                  <<RMul(R(1,2), pd.a), RMul(R(1,2), pd.b), R(1,4), RZero, R(-1,2)>> >>
 FieldDefs == { pd \in QuickDefs : pd.model \in {"plate", "cpanel", "plate_w"} /\ pd.y1 = RZero /\ pd.y2 = pd.b }
 FieldRequests(pd) ==
     { [q |-> "uvw", c |-> StateVec(pd), pts |-> FieldPts(pd)] @@ NoPlace }
     \cup (IF pd.model = "plate_w" THEN {}        \* the w-only model offers displacements only
           ELSE { [q |-> qq, c |-> StateVec(pd), pts |-> FieldPts(pd), NL |-> nl] @@ NoPlace : qq \in {"strain", "stress"}, nl \in BOOLEAN }
                \cup { [q |-> "fext", forces |-> Forces1(pd), forcesInc |-> Forces2(pd), inc |-> i] @@ NoPlace : i \in {ROne, R(3,8)} }
-               \cup { [q |-> "fext", forces |-> <<>>, forcesInc |-> Forces1(pd), inc |-> R(1,2)] @@ NoPlace })
+               \cup { [q |-> "fext", forces |-> <<>>, forcesInc |-> Forces1(pd), inc |-> R(1,2)] @@ NoPlace }
+               \cup { [q |-> "fext", forces |-> Forces3(pd), forcesInc |-> Forces4(pd), inc |-> i] @@ NoPlace : i \in {ROne, R(3,8)} })
 
 (* non-linear requests: small orders, flags that leave in-plane and out-of-plane amplitudes active *)
 NLDefs == { PD(mo, R(2,1), R(3,2), IF mo = "cpanel" THEN R(4,1) ELSE RZero, RZero, ROne, mn[1], mn[2], fl, lam,
